@@ -10,7 +10,7 @@ def model(ctx, thorough):
     """(M) the goroutine/channel protocol as repaired: NoPanic (invariant) and Returns (liveness under fairness)"""
     cfgs = [dict(Callers="{1, 2}", MaxMsgs=1, CapMsg=2, CapActive=1, CapComplete=1, CapOp=2, TermResponds="TRUE")]
     if thorough:
-        cfgs += [dict(Callers="{1, 2, 3}", MaxMsgs=1, CapMsg=1, CapActive=2, CapComplete=1, CapOp=2, TermResponds="TRUE"),
+        cfgs += [dict(Callers="{1, 2}", MaxMsgs=2, CapMsg=1, CapActive=2, CapComplete=1, CapOp=2, TermResponds="TRUE"),
                  dict(Callers="{1, 2}", MaxMsgs=2, CapMsg=1, CapActive=1, CapComplete=2, CapOp=1, TermResponds="FALSE")]
     # a terminal that never reads and never disconnects: the writer is stuck in its first command write for ever; every caller
     # still returns (the caller's own deadline, commit c4130fb; with Protocol "fixed" TLC refutes Returns here)
@@ -18,6 +18,15 @@ def model(ctx, thorough):
     for c in cfgs:
         consts = dict(c); consts["Protocol"] = '"fixed2"'; consts.setdefault("SerialMod", 4); consts["Identity"] = "TRUE"
         ctx.tlc("MC_Conn", constants=consts, workers=14, heap="10g", timeout=3000, name="MC_Conn_fixed2_%s" % json.dumps(c, sort_keys=True))
+    # three callers: NoPanic and the other invariants only (MC_Conn_safety.cfg): the liveness graph of three callers does not
+    # finish in an hour, Returns is checked with two callers above
+    safety = [dict(Callers="{1, 2, 3}", MaxMsgs=1, CapMsg=1, CapActive=2, CapComplete=1, CapOp=2, TermResponds="TRUE", SerialMod=2)]
+    if thorough:
+        safety += [dict(Callers="{1, 2, 3}", MaxMsgs=2, CapMsg=1, CapActive=2, CapComplete=1, CapOp=2, TermResponds="TRUE", SerialMod=4),
+                   dict(Callers="{1, 2, 3}", MaxMsgs=1, CapMsg=2, CapActive=1, CapComplete=1, CapOp=2, TermResponds="FALSE", TermReads="FALSE", TermCloses="FALSE", SerialMod=4)]
+    for c in safety:
+        consts = dict(c); consts["Protocol"] = '"fixed2"'; consts["Identity"] = "TRUE"
+        ctx.tlc("MC_Conn", cfg="MC_Conn_safety", constants=consts, workers=14, heap="10g", timeout=3000, name="MC_Conn_safety_%s" % json.dumps(c, sort_keys=True))
 
 
 def check(ctx):
